@@ -283,6 +283,8 @@ fn run(n: usize, keys: &[String], hist: &[&str], op: &str) -> Outcome {
     })
 }
 
+vh::use_jemalloc!();
+
 fn main() {
     let args = cli::parse_args();
     vh::quiet_panics();
